@@ -45,6 +45,24 @@ static Byte*   CodeBuffer;
     __CPROVER_assigns(LenSoFar, RecPos, LenPos, ThisRel, CodeBufferFill, __CPROVER_object_whole(CodeBuffer)) \
     __CPROVER_assigns(PRG.pos, PRG.len, PRG.w_val, PRG.n_write_calls, PRG.bytes_written, PRG.io_error, verif_errno, g_exit_code)
 
+/* loop contracts for the anchors VERIF_LOOP(asmcode_turn2 / asmcode_turn4) in DreheCodes: witness word gk_t with the
+ * value g_t_old it had on entry -- words below z are turned, words from z on are untouched */
+extern unsigned gk_t, g_t_old, gk_b, g_b_old; /* gk_b: witness byte behind the last whole word (frame) */
+#define TURN16(w) ((Word)((((w) & 0xffu) << 8) + (((w) & 0xff00u) >> 8)))
+#define TURN32(w) ((LongWord)((((w) & 0xffu) << 24) | (((w) & 0xff00u) << 8) | (((w) & 0xff0000u) >> 8) | (((w) & 0xff000000u) >> 24)))
+#define VERIF_LOOP_asmcode_turn2                                                                                       \
+    __CPROVER_assigns(z, __CPROVER_object_whole(WAsmCode))                                                             \
+    __CPROVER_loop_invariant(0 <= z && z <= (l >> 1))                                                                  \
+    __CPROVER_loop_invariant(!((LongInt)gk_t < (l >> 1)) || WAsmCode[gk_t] == ((LongInt)gk_t < z ? TURN16(g_t_old) : (Word)g_t_old)) \
+    __CPROVER_loop_invariant(!((LongInt)gk_b < l && (LongInt)gk_b >= ((l >> 1) << 1)) || BAsmCode[gk_b] == (Byte)g_b_old)                 \
+    __CPROVER_decreases((l >> 1) - z)
+#define VERIF_LOOP_asmcode_turn4                                                                                       \
+    __CPROVER_assigns(z, __CPROVER_object_whole(DAsmCode))                                                             \
+    __CPROVER_loop_invariant(0 <= z && z <= (l >> 2))                                                                  \
+    __CPROVER_loop_invariant(!((LongInt)gk_t < (l >> 2)) || DAsmCode[gk_t] == ((LongInt)gk_t < z ? TURN32(g_t_old) : (LongWord)g_t_old)) \
+    __CPROVER_loop_invariant(!((LongInt)gk_b < l && (LongInt)gk_b >= ((l >> 2) << 2)) || BAsmCode[gk_b] == (Byte)g_b_old)                 \
+    __CPROVER_decreases((l >> 2) - z)
+
 #ifdef VERIF_CBMC
 /* DreheCodes: byte permutation inside each listing unit (assumed here, see h_asmcode.c) */
 void DreheCodes(void)
